@@ -355,7 +355,8 @@ def run(ctx, exact: bool = False, groups: bool = True) -> None:
             if rng.random() < 0.04 and case["top"]["proto"] in (6, 17):
                 # operand 0: 'lt 0' matches no port at all, 'gt 0' every port (on either entry)
                 who = rng.choice(["top", "top", "bottom"])
-                case[who] = dict(case[who], **{rng.choice(["sport", "dport"]): rng.choice(["lt 0", "lt 0", "gt 0", "range 0 5"])})
+                if case[who]["proto"] in (6, 17):
+                    case[who] = dict(case[who], **{rng.choice(["sport", "dport"]): rng.choice(["lt 0", "lt 0", "gt 0", "range 0 5"])})
             if platform == "ios" and rng.random() < 0.05 and case["top"]["proto"] in (6, 17):
                 # both entries carry a three-port neq list with the same lowest and highest port, other middle port
                 lo = rng.randint(1, 60000)
